@@ -50,7 +50,7 @@ def gen(rng, tier):
         bm[0] = 0x80
         bm[(bit - 1) // 8] |= 1 << (7 - (bit - 1) % 8)
         cases.append({'kind': 'raw', 'file': (base[:8] + bytes(bm) + base[24:]).hex(), 'expect': 'valid' if str(bit) in pk else 'invalid'})
-    for _ in range(600 if tier == 'quick' else 8000):
+    for _ in range(600 if tier == 'quick' else 20000):
         n = rng.choice([24, 100, 1013, 1014, 1015, 2027, 2028, 2029, 2500, 3042])
         f = bytearray(rng.randrange(256) for _ in range(n))
         f[0:4] = rng.choice([0, 50, 6000]).to_bytes(4, 'big')
